@@ -104,14 +104,16 @@ PROPS = {
         subs=[
             dict(test="TestC05Structured", quick=4000, thorough=25000),
             dict(test="TestC05Raw", quick=15000, thorough=150000),
+            dict(test="TestC05Payload", quick=8000, thorough=60000),
         ],
         fuzz=[dict(target="FuzzC05", seconds=90)],
         rule="Structured hostile inputs: a valid document from the C02 generator is marshaled with every field selected, parsed into an ordered "
              "JSON tree and mutated 1-3 times (any node replaced by a value of another JSON kind, member deleted, duplicate key, unknown / swapped / "
              "empty type name, unknown field, null array element, nesting to depth 3..10001, truncation); the document text, its data sub-tree, "
              "a member and an included element are each fed to UnmarshalDocument, UnmarshalResource, UnmarshalPartialResource, UnmarshalCollection, "
-             "UnmarshalIdentifier, UnmarshalIdentifiers and NewRequest (POST/PATCH/GET). Raw inputs: arbitrary bytes and JSON token soups with schema "
-             "names. Thorough adds a 90 s coverage-guided native fuzz campaign (fixed 2-type all-kinds schema, golden files and hostile constants as "
+             "UnmarshalIdentifier, UnmarshalIdentifiers and NewRequest (POST/PATCH/GET). Payload sub-check: resource payloads in which every "
+             "attribute of every kind gets a literal of any JSON kind and spelling from the C06 generator (half ill-typed), alone / as document data / "
+             "as collection member / as included element. Raw inputs: arbitrary bytes and JSON token soups with schema names. Thorough adds a 90 s coverage-guided native fuzz campaign (fixed 2-type all-kinds schema, golden files and hostile constants as "
              "corpus). Oracle: no panic; error xor result; every returned resource has a schema type, only the schema's fields, every attribute value "
              "of exactly the declared Go type (nil only if nullable), to-one string, to-many []string; identifiers non-empty with a schema type. "
              "Non-trivial (structured) = every case (all are syntactically valid JSON before truncation); (raw) = input is valid JSON.",
